@@ -118,7 +118,7 @@ fn expected_pfield(x: &FieldIn) -> Field<PortableForm> {
         Some((_, d)) if DOCS_ON => d.clone(),
         _ => vec![],
     };
-    Field::new(x.name.clone(), x.ty.into(), x.type_name.clone(), docs)
+    Field { name: x.name.clone(), ty: x.ty.into(), type_name: x.type_name.clone(), docs }
 }
 
 fn build_pfields(named: bool, fs: &[FieldIn]) -> Vec<Field<PortableForm>> {
@@ -353,25 +353,30 @@ fn portable_case(rng: &mut Rng, rep: &mut Report, case_id: u64) {
     });
     let exp_fields = |fs: &[FieldIn]| fs.iter().map(expected_pfield).collect::<Vec<_>>();
     let want_def: TypeDef<PortableForm> = if is_variant {
-        TypeDefVariant::new(variants.iter().map(|v| {
-            let fs = if v.unit_ctor { vec![] } else { v.fields.as_ref().map(|(_, f)| exp_fields(f)).unwrap_or_default() };
-            let docs = match (&v.docs, v.unit_ctor) {
-                (Some((_, d)), false) if DOCS_ON => d.clone(),
-                _ => vec![],
-            };
-            Variant::new(v.name.clone(), fs, v.index, docs)
-        })).into()
+        TypeDef::Variant(TypeDefVariant {
+            variants: variants
+                .iter()
+                .map(|v| {
+                    let fs = if v.unit_ctor { vec![] } else { v.fields.as_ref().map(|(_, f)| exp_fields(f)).unwrap_or_default() };
+                    let docs = match (&v.docs, v.unit_ctor) {
+                        (Some((_, d)), false) if DOCS_ON => d.clone(),
+                        _ => vec![],
+                    };
+                    Variant { name: v.name.clone(), fields: fs, index: v.index, docs }
+                })
+                .collect(),
+        })
     } else if unit {
-        TypeDefComposite::new(vec![]).into()
+        TypeDef::Composite(TypeDefComposite { fields: vec![] })
     } else {
-        TypeDefComposite::new(exp_fields(&fields.1)).into()
+        TypeDef::Composite(TypeDefComposite { fields: exp_fields(&fields.1) })
     };
-    let want = Type::new(
-        Path::from_segments_unchecked(segs.clone()),
-        params.iter().map(|(n, t)| TypeParameter::new_portable(n.clone(), t.map(Into::into))),
-        want_def,
-        if DOCS_ON { tdocs.clone().unwrap_or_default() } else { vec![] },
-    );
+    let want: Type<PortableForm> = Type {
+        path: Path { segments: segs.clone() },
+        type_params: params.iter().map(|(n, t)| TypeParameter { name: n.clone(), ty: t.map(Into::into) }).collect(),
+        type_def: want_def,
+        docs: if DOCS_ON { tdocs.clone().unwrap_or_default() } else { vec![] },
+    };
     rep.count("portable_scripts", 1);
     rep.count(if is_variant { "portable_variant_types" } else { "portable_composite_types" }, 1);
     match built {
@@ -463,7 +468,7 @@ fn expected_mfield(x: &MField) -> Option<Field<MetaForm>> {
         Some((false, d)) if DOCS_ON => d.to_vec(),
         _ => vec![],
     };
-    Some(Field::new(x.name, m, x.type_name, docs))
+    Some(Field { name: x.name, ty: m, type_name: x.type_name, docs })
 }
 
 fn build_mfields_named(fs: &[MField]) -> scale_info::build::FieldsBuilder<MetaForm, scale_info::build::NamedFields> {
@@ -586,20 +591,25 @@ fn meta_case(rng: &mut Rng, rep: &mut Report, case_id: u64) {
         }
     };
     let want_def: TypeDef<MetaForm> = if is_variant {
-        TypeDefVariant::new(variants.iter().map(|(v, mf)| {
-            let fsx: Vec<Field<MetaForm>> = if v.unit_ctor || v.fields.is_none() { vec![] } else { mf.iter().filter_map(expected_mfield).collect() };
-            let docs = if v.unit_ctor { vec![] } else { keep(v.docs.as_ref().map(|(a, d)| (*a, leak_docs(d)))) };
-            Variant::new(leak(v.name.clone()), fsx, v.index, docs)
-        })).into()
+        TypeDef::Variant(TypeDefVariant {
+            variants: variants
+                .iter()
+                .map(|(v, mf)| {
+                    let fsx: Vec<Field<MetaForm>> = if v.unit_ctor || v.fields.is_none() { vec![] } else { mf.iter().filter_map(expected_mfield).collect() };
+                    let docs = if v.unit_ctor { vec![] } else { keep(v.docs.as_ref().map(|(a, d)| (*a, leak_docs(d)))) };
+                    Variant { name: leak(v.name.clone()), fields: fsx, index: v.index, docs }
+                })
+                .collect(),
+        })
     } else {
-        TypeDefComposite::new(fs.iter().filter_map(expected_mfield)).into()
+        TypeDef::Composite(TypeDefComposite { fields: fs.iter().filter_map(expected_mfield).collect() })
     };
-    let want: Type<MetaForm> = Type::new(
-        Path::from_segments_unchecked(segs.clone()),
-        params.iter().map(|(n, t)| TypeParameter::new(n, t.map(|k| meta_of(k).0))),
-        want_def,
-        keep(tdocs),
-    );
+    let want: Type<MetaForm> = Type {
+        path: Path { segments: segs.clone() },
+        type_params: params.iter().map(|(n, t)| TypeParameter { name: *n, ty: t.map(|k| meta_of(k).0) }).collect(),
+        type_def: want_def,
+        docs: keep(tdocs),
+    };
     rep.count("meta_scripts", 1);
     let phantom_inputs = fs.iter().filter(|f| meta_of(f.ty).1).count() + variants.iter().map(|(_, m)| m.iter().filter(|f| meta_of(f.ty).1).count()).sum::<usize>();
     rep.count("phantom_members_supplied", phantom_inputs as u64);
